@@ -47,6 +47,11 @@ func (fio *FileIO) Close() error {
 	return fio.fd.Close()
 }
 
+func (fio *FileIO) Truncate(size int64) error {
+	// 文件以追加模式打开, 截断后的写入自动从新的文件末尾开始
+	return fio.fd.Truncate(size)
+}
+
 func (fio *FileIO) Size() (int64, error) {
 	stat, err := fio.fd.Stat()
 	if err != nil {
